@@ -51,7 +51,10 @@ func cmdTimePump(args []string) int {
 	fmt.Sscan(args[2], &n)
 	fmt.Sscan(args[3], &factor)
 	fmt.Sscan(args[4], &reps)
+	// no periodic GC during a measurement, but never grow without bound (an allocation-heavy
+	// regression must show up as time, not as an out-of-memory kill)
 	debug.SetGCPercent(-1)
+	debug.SetMemoryLimit(1 << 30)
 	i := 0
 	for sc.Scan() {
 		var c struct {
@@ -64,7 +67,13 @@ func cmdTimePump(args []string) int {
 			fatal(err)
 		}
 		var res [2]int64
+		skipped := false
 		for k, size := range []int{n, n * factor} {
+			if k == 1 && res[0] > int64(time.Second) {
+				// already far above the absolute per-byte bound at n: do not spend minutes on the larger size
+				skipped = true
+				break
+			}
 			in := pumped(c.Pre, c.Rep, c.Tail, size)
 			best := time.Duration(1 << 62)
 			for r := 0; r < reps; r++ {
@@ -79,7 +88,7 @@ func cmdTimePump(args []string) int {
 			res[k] = int64(best)
 			runtime.GC()
 		}
-		fmt.Fprintf(w, "{\"ev\":\"time\",\"i\":%d,\"n\":%d,\"ns\":%d,\"n2\":%d,\"ns2\":%d}\n", i, n, res[0], n*factor, res[1])
+		fmt.Fprintf(w, "{\"ev\":\"time\",\"i\":%d,\"n\":%d,\"ns\":%d,\"n2\":%d,\"ns2\":%d,\"skipped\":%v}\n", i, n, res[0], n*factor, res[1], skipped)
 		i++
 	}
 	return 0
